@@ -563,11 +563,40 @@ def run(ctx):
     rel = lambda p: p["kind"] == "crash" or "device-" in p["msg"] or "CRASH" in p["msg"]
     rtx.pipeline_part(ctx, ["switchfail", "api", "drop2", "setfail", "switchfail", "api", "setfail"], 30 if thorough else 7, 6 if thorough else 3, rel,
                       "device switches with failing opens, streams switched off, shutdown: one close per open, no call and no write after close")
+    loader_part(ctx)
+
+
+def loader_part(ctx):
+    """one layer below the HAL's callers: acquire-device-hal/device/hal/loader.c forwards open/close/describe to the driver library.
+    The driver must see exactly one close per successful open through it too — in particular none for an open it refused, even when it
+    had stored (and released again) a device in *out before failing (mock driver of the C12 harness, ASan)."""
+    from . import c12
+    import random
+    keep = dict(ctx.cov)
+    nviol, ncorr = len(ctx.violations), len(ctx.corr_broken)
+    paths = c12.build(ctx)
+    ctx.cov.clear(); ctx.cov.update(keep)
+    if not paths:
+        return
+    rng = random.Random(ctx.seed)
+    slots = c12.make_config(rng, 0b111111, True)
+    n = len(c12.enumerated(paths, slots))
+    ops = [("getdrv %d" % i, None) for i in range(0, 7)] + [("open %d" % i, None) for i in range(n)] + [("openh %d" % i, None) for i in range(n)]
+    res = c12.run_config(paths, slots, ops, "c11-loader")
+    bad = [p for p in res["problems"] if p[0] in ("crash", "oracle")]
+    for kind, op, det in bad[:3]:
+        ctx.violation(kind, "h_select:loader:%s" % kind,
+                      "driver calls forwarded by the loader: `%s` -> %s (drivers: %s)" % (op, str(det)[:300], c12.describe_slots(slots)),
+                      {"harness": "h_select", "slots": c12.slots_json(slots), "op": op})
+    ctx.cov["loader_part"] = {"ops": len(ops), "devices": n, "problems": len(bad)}
 
 
 def replay(ctx, path):
     obj = json.load(open(path))
     rp = obj.get("replay") or {}
+    if rp.get("harness") == "h_select":
+        from . import c12
+        return c12.replay(ctx, path)
     if "harness_input" in rp:
         from . import rtx
         return rtx.replay(ctx, path)
